@@ -202,12 +202,84 @@ def discharge_call(ctx, b, site, what):
         if _len_guard(ctx, b, site, args[0], args[1]):
             return True, "dominated by a comparison that establishes mid <= len"
         return False, "split point not shown to be within the slice"
-    if what == "Index::index":
-        # slicing with constant ranges on a value of known length (hex string of a fixed-size array)
+    if what in ("Index::index", "IndexMut::index_mut"):
+        # slicing a fixed-size array with compile-time constant bounds that lie inside it
+        pl0 = place_of(args[0])
+        n = _array_len(prog, ctx.world._place_ty(b, pl0)) if pl0 is not None else None
+        if isinstance(n, int) and len(args) > 1:
+            rng = _const_range(b, args[1])
+            if rng is not None:
+                lo, hi = rng
+                lo = 0 if lo is None else lo
+                hi = n if hi is None else hi
+                if 0 <= lo <= hi <= n:
+                    return True, "constant range %d..%d inside an array of length %d" % (lo, hi, n)
+                return False, "constant range %d..%d is outside the array of length %d" % (lo, hi, n)
         return False, "indexing can panic"
     if what == "assert_failed" or what == "panic":
         return False, "explicit assertion/panic"
     return False, "may panic"
+
+
+def _const_value(b, op, depth=0):
+    """Compile-time value of an operand: a literal, or +,-,* of such values (through the overflow-check tuple)."""
+    if "const" in op:
+        v = op["const"].get("v")
+        return v if isinstance(v, int) else None
+    pl = place_of(op)
+    if pl is None or depth > 6:
+        return None
+    proj = [e for e in pl["p"] if not (isinstance(e, dict) and e.get("f") == 0 and "adt" not in e)]
+    if proj:
+        return None
+    defs = b.assignments().get(pl["l"], [])
+    if len(defs) != 1 or defs[0][1] == "term":
+        return None
+    rv = defs[0][2]
+    if rv["k"] in ("use", "cast"):
+        return _const_value(b, rv["op"], depth + 1)
+    if rv["k"] == "binop":
+        x, y = _const_value(b, rv["a"], depth + 1), _const_value(b, rv["b"], depth + 1)
+        if x is None or y is None:
+            return None
+        o = rv["op"]
+        if o.startswith("Add"):
+            return x + y
+        if o.startswith("Sub"):
+            return x - y
+        if o.startswith("Mul"):
+            return x * y
+    return None
+
+
+def _const_range(b, op):
+    """(lo, hi) of a Range/RangeTo/RangeFrom/RangeFull aggregate with compile-time bounds (None = open end); a plain
+    constant index i is (i, i + 1)."""
+    v = _const_value(b, op)
+    if v is not None:
+        return (v, v + 1)
+    pl = place_of(op)
+    if pl is None or pl["p"]:
+        return None
+    defs = b.assignments().get(pl["l"], [])
+    if len(defs) != 1 or defs[0][1] == "term" or defs[0][2]["k"] != "agg":
+        return None
+    rv = defs[0][2]
+    d = (rv.get("def") or "").split("::")[-1]
+    vals = [_const_value(b, o) for o in rv["ops"]]
+    if any(x is None for x in vals):
+        return None
+    if d == "Range" and len(vals) == 2:
+        return (vals[0], vals[1])
+    if d == "RangeTo" and len(vals) == 1:
+        return (None, vals[0])
+    if d == "RangeFrom" and len(vals) == 1:
+        return (vals[0], None)
+    if d == "RangeFull":
+        return (None, None)
+    if d == "RangeToInclusive" and len(vals) == 1:
+        return (None, vals[0] + 1)
+    return None
 
 
 SPLITS = ("split_at_checked", "split_at", "split_at_unchecked")
